@@ -39,7 +39,13 @@ RULE = ("deterministic lifecycle corpus (every single-field and all-field update
         "id never created or merely absent) and succeeding (create, update, delete, lookup, describe, list) "
         "bucket-level calls, only the call's result and bucket_instances observed, one dump at the end, SqliteStorage "
         "in its default lazy-commit mode; deterministic (every bucket-level call x four patterns of pending writes) "
-        "then seeded random; non-trivial there = a bucket-level call arrives after an unread event write")
+        "then seeded random; non-trivial there = a bucket-level call arrives after an unread event write; (c) scenarios "
+        "of harness/store_sched.py judged by the property statement alone: every write statement / read / COMMIT of "
+        "create_bucket, update_bucket, delete_bucket (peewee, sqlite; both layers) fails once - raised before the engine "
+        "or refused by the engine's authorizer - and the caller carries on: repeats the call, re-creates the SAME id, "
+        "creates ANOTHER id (peewee re-issues the key of the newest deleted row), writes, with and without an unread "
+        "run-up; two storage / Datastore objects on one file used alternately; two threads with thread A suspended "
+        "inside the 1st..3rd engine call of a bucket-level call while B runs whole calls")
 
 SEC = 1_000_000
 MISSING = 7
@@ -997,6 +1003,21 @@ def main(argv=None):
                                      "call before unread_from_call dump every bucket (Run.dump), from there on no read "
                                      "at all, one Run.dump at the end (= harness.c05.run_history(..., quiet_from)); "
                                      "SqliteStorage with the default enable_lazy_commit=True"})
+
+    # --- (c) round 6: an engine call that fails once inside a bucket-level call and a caller that carries on (re-creates,
+    #     creates another id, repeats the call); two Datastores on one file; two threads (harness/store_sched.py)
+    try:
+        from . import store_sched as ss
+        quick = ck.tier == "quick"
+        big = 10 ** 9
+        scns = (ss.pick(ck.rng, ss.fault_scenarios(), 60 if quick else big, must=lambda s: s.get("bucket_level"))
+                + ss.object_scenarios(ck.rng, quick)
+                + ss.pick(ck.rng, ss.thread_scenarios(backends=("peewee",)), 40 if quick else big,
+                          must=lambda s: s["steps"][-2]["a"]["op"][0] in ("create", "update", "delete_bucket")))
+        ss.check(ck, "C05", ss.C05_KINDS, scns, "scenario")
+    except Exception as ex:  # noqa: BLE001 -- reported, never hidden
+        ck.disagreement("scenarios", f"the fault / two-object / two-thread scenarios could not run: {type(ex).__name__}: {ex}",
+                        {"kind": "scenario-stream"})
 
     # --- correspondence with the model
     if have_driver:
